@@ -29,6 +29,7 @@
 //! drop <t>                             ObjectStore::remove_dir_all(table root)
 //! scan <t> | scanv <t> <v>             ordered scan with _rowid of the latest / of version v
 //! count <t> | indices <t> | txn <t> <v> | take <t> <ids>
+//! fscan <t> <lo>                       ordered scan with _rowid and filter `c0 >= lo` (uses the scalar index when there is one)
 //! ```
 //! Rows have one Int64 column `c0`; the values are a per-case counter, so no value is ever written twice.
 //!
@@ -71,6 +72,7 @@ enum Op {
     Indices { t: usize },
     Txn { t: usize, v: u64 },
     Take { t: usize, ids: Vec<u64> },
+    FScan { t: usize, lo: u64 },
 }
 
 impl Op {
@@ -89,11 +91,12 @@ impl Op {
             | Op::Count { t }
             | Op::Indices { t }
             | Op::Txn { t, .. }
-            | Op::Take { t, .. } => Some(*t),
+            | Op::Take { t, .. }
+            | Op::FScan { t, .. } => Some(*t),
         }
     }
     fn is_read(&self) -> bool {
-        matches!(self, Op::Scan { .. } | Op::ScanV { .. } | Op::Count { .. } | Op::Indices { .. } | Op::Txn { .. } | Op::Take { .. })
+        matches!(self, Op::Scan { .. } | Op::ScanV { .. } | Op::Count { .. } | Op::Indices { .. } | Op::Txn { .. } | Op::Take { .. } | Op::FScan { .. })
     }
     fn name(&self) -> &'static str {
         match self {
@@ -111,6 +114,7 @@ impl Op {
             Op::Indices { .. } => "indices",
             Op::Txn { .. } => "txn",
             Op::Take { .. } => "take",
+            Op::FScan { .. } => "fscan",
         }
     }
 }
@@ -162,6 +166,7 @@ fn parse_op(line: &str) -> Option<Op> {
         ["indices", t] => Some(Op::Indices { t: parse_tab(t)? }),
         ["txn", t, v] => Some(Op::Txn { t: parse_tab(t)?, v: parse_nat(v)? }),
         ["take", t, ids] => Some(Op::Take { t: parse_tab(t)?, ids: parse_ids(ids)? }),
+        ["fscan", t, lo] => Some(Op::FScan { t: parse_tab(t)?, lo: parse_nat(lo)? }),
         _ => None,
     }
 }
@@ -318,6 +323,14 @@ impl C38 {
                 let l = scan_line(&at)?;
                 Ok((l.clone(), l))
             }
+            Op::FScan { t, lo } => {
+                let d = kit.open(&run.uris[*t], None)?;
+                let f = format!("c0 >= {lo}");
+                let rows =
+                    kit.scan(&d, &spec, &ScanOpts { ordered: true, with_row_id: true, filter: Some(&f), ..Default::default() })?;
+                let l = format!("v={} rows={}", d.version().version, show_rows(&rows));
+                Ok((l.clone(), l))
+            }
             Op::Count { t } => {
                 let d = kit.open(&run.uris[*t], None)?;
                 let l = format!("n={}", kit.count_rows(&d, None)?);
@@ -427,9 +440,9 @@ impl Prop for C38 {
 
     fn budget(&self, tier: Tier) -> usize {
         match tier {
-            Tier::Quick => 90,
-            Tier::Thorough => 1500,
-            Tier::Search => 400,
+            Tier::Quick => 600,
+            Tier::Thorough => 8000,
+            Tier::Search => 2500,
         }
     }
 
@@ -447,10 +460,11 @@ impl Prop for C38 {
         let mut next_val = 0u64;
         let mut next_rid = [0u64; 3];
         let steps = 6 + rng.usize(9);
-        fn reads(rng: &mut Rng, t: usize, nver: u64, stable: bool, next_rid: u64, lines: &mut Vec<String>) {
+        fn reads(rng: &mut Rng, t: usize, nver: u64, stable: bool, next_rid: u64, next_val: u64, lines: &mut Vec<String>) {
             let k = 1 + rng.usize(3);
             for _ in 0..k {
-                match rng.usize(8) {
+                match rng.usize(10) {
+                    8 | 9 => lines.push(format!("fscan {t} {}", next_val.saturating_sub(rng.below(9)))),
                     0 | 1 | 2 => lines.push(format!("scan {t}")),
                     3 => lines.push(format!("count {t}")),
                     4 => lines.push(format!("indices {t}")),
@@ -483,7 +497,7 @@ impl Prop for C38 {
                 nver[t] = 1;
                 next_val += n as u64;
                 next_rid[t] = if s { n as u64 } else { 0 };
-                reads(rng, t, nver[t], stable[t], next_rid[t], &mut lines);
+                reads(rng, t, nver[t], stable[t], next_rid[t], next_val, &mut lines);
                 continue;
             }
             let f = 1 + rng.usize(3);
@@ -536,7 +550,7 @@ impl Prop for C38 {
                 }
                 _ => {}
             }
-            reads(rng, t, nver[t], stable[t], next_rid[t], &mut lines);
+            reads(rng, t, nver[t], stable[t], next_rid[t], next_val, &mut lines);
         }
         if malformed && lines.len() > 2 {
             let i = 1 + rng.usize(lines.len() - 1);
@@ -617,6 +631,7 @@ impl Prop for C38 {
                 }
                 match opn {
                     "scan" | "scanv" | "take" => Some("recreate_row_ids".into()),
+                    "fscan" => Some("recreate_index_metadata".into()),
                     "indices" | "append" | "overwrite" | "delete" | "restore" | "index" => Some("recreate_index_metadata".into()),
                     _ => None,
                 }
@@ -654,7 +669,7 @@ impl Prop for C38 {
         "seeded histories of 6-14 steps on 1-3 table locations sharing one session (create with/without stable row ids, append, \
          overwrite, delete by value range, restore, create index, drop; 35 % of the cases may create a location again after a drop), \
          1-3 reads after every step (scan with _rowid, count, load_indices, read_transaction_by_version, scan of an old version, \
-         take_rows); cache capacities cycle large / tiny / zero / large; 12 % of the cases get one malformed or failing line. Every \
+         take_rows, filtered scan c0 >= x); cache capacities cycle large / tiny / zero / large; 12 % of the cases get one malformed or failing line. Every \
          case runs on a session with caching disabled (printed, compared with the model) and on the shared session (compared line by \
          line with the former, and every read with a fresh session). Non-trivial: a read that succeeds after at least two commits."
             .into()
